@@ -1,4 +1,5 @@
 import Driver.Codec
+import Driver.TypedCodec
 import Std.Data.HashMap
 import Ucfg.Spec.C20
 import Ucfg.Spec.C17
@@ -632,10 +633,8 @@ def readE (std : Stdlib) (root0 : Val) (ro0 : Opts) (rd : Json) : R Json := do
     else match dget root.dict name with
       | none => pure (errKindJson (Outcome.raise (α := Unit) .missing))
       | some v =>
-        -- CountField returns the error of value.Len as it is (not wrapped at the API boundary)
-        let rawErr {α : Type} (r : Outcome α) : Json := match r with
-          | .err e => Json.mkObj [("err", Json.mkObj [("reason", .str e.reason.name), ("typed", .bool e.typed)])]
-          | r => errKindJson r
+        -- CountField wraps the error of value.Len like the typed getters do
+        let rawErr {α : Type} (r : Outcome α) : Json := errKindJson r
         pure (match runEM (do let (f, _) ← force C defaultFuel root [name] v []; pure f) with
           | .ok f => (match valLen f.v with
             | .ok n => Json.mkObj [("ok", Json.mkObj [("i", .str (toString n))])]
@@ -717,6 +716,91 @@ def runEval (std : Stdlib) (c : Json) : R (Json × Option Json × Option String)
             | (g, w) :: _ => some (failOracle s!"a read differs from late-bound substitution: got {g.compress}, want {w.compress}")
   pure (Json.mkObj [("reads", model), ("outcomes", .num 1)], oracle, none)
 
+/-- C04/C13/C14/C06 "unpack": a typed target (type `ty`, pre-filled with `old`) and a config.
+Oracle (C04): a successful result passes recValidate (every declared validator on every reachable field);
+(C13): see the worker's `unchanged` flag on failure. -/
+def runUnpack (std : Stdlib) (c : Json) : R (Json × Option Json × Option String) := do
+  let ty ← parseTy (← c.getObjVal? "ty")
+  let old ← match optField c "old" with
+    | some .null | none => pure (zeroOf ty)
+    | some j => parseGoVal j
+  let co ← getOpts c "copts"
+  let uo ← getOpts c "uopts"
+  let d ← parseGoData ((optField c "from").getD .null)
+  match newFrom co d with
+  | .ok cfg =>
+    let r := unpack std uo ty old cfg
+    let model := match r with
+      | .ok v => Json.mkObj [("ok", goValJson v)]
+      | .err e => Json.mkObj [("err", Json.mkObj [("reason", .str e.reason.name)])]
+      | .panic s => Json.mkObj [("panic", .str s)]
+      | .fuel => Json.mkObj [("fuel", .bool true)]
+    -- C14 precondition: the configuration without the injected fault unpacks (valid pair); otherwise no verdict
+    let validOk : Bool ← match optField c "validFrom" with
+      | none => pure true
+      | some vj => do
+        let vd ← parseGoData vj
+        match newFrom co vd with
+        | .ok vcfg => pure (unpack std uo ty old vcfg).isOk
+        | _ => pure false
+    let oracle : Option Json ← match optField c "impl" with
+      | none => pure none
+      | some impl =>
+        if !validOk then pure none else
+        match optField impl "ok" with
+        | some okv => do
+          let got ← parseGoVal okv
+          -- C14: a case with an injected fault must fail
+          if (optField c "faultPath").isSome then
+            pure (some (failOracle "a configuration with a faulty setting was unpacked without error"))
+          else
+          match recValidate std uo ty [] got with
+          | some e => pure (some (failOracle s!"Unpack returned nil but the result violates a declared validator ({e.reason.name})"))
+          | none =>
+            -- C13 frame: a non-struct field the configuration has no setting for keeps its previous value
+            let frameBad : Option String := match ty, old, got with
+              | .strct fs, .strct os, .strct gs =>
+                ((fs.zip (os.zip gs)).findSome? (fun ((g, tag, vtag, t), (ov, gv)) =>
+                  match t with
+                  | .strct _ => none
+                  | _ =>
+                    match accessField uo g tag vtag with
+                    | .ok (some fi) =>
+                      if fi.tag.squash then none
+                      else match pathGet tcPlain (parsePathOpts fi.name uo) cfg with
+                        | .ok none => if (goValJson ov).compress == (goValJson gv).compress then none else some fi.name
+                        | _ => none
+                    | .ok none => if (goValJson ov).compress == (goValJson gv).compress then none else some g
+                    | _ => none))
+              | _, _, _ => none
+            match frameBad with
+            | some f => pure (some (failOracle s!"field {f} changed although the configuration has no setting for it"))
+            | none => pure (some okOracle)
+        | none =>
+          match optField impl "err" with
+          | some e =>
+            if !(boolFieldD impl "unchanged" true) then
+              pure (some (failOracle "Unpack failed but the struct passed in no longer holds its previous field values"))
+            else if !(boolFieldD e "typed" false) then
+              pure (some (failOracle "Unpack returned an error that is not a ucfg.Error"))
+            else if strFieldD e "reason" "nil" == "nil" || strFieldD e "class" "nil" == "nil" then
+              pure (some (failOracle "the error has no Reason or no Class"))
+            else match optField c "faultPath" with
+              | some (.str fp) =>
+                let text := strFieldD e "text" ""
+                let quoted := "'" ++ fp ++ "'"
+                if (text.splitOn quoted).length < 2 then
+                  pure (some (failOracle s!"the error does not name the offending setting {quoted}: {text}"))
+                else match optField c "source" with
+                  | some (.str src) =>
+                    if (text.splitOn src).length < 2 then pure (some (failOracle s!"the error does not mention the source {src}: {text}"))
+                    else pure (some okOracle)
+                  | _ => pure (some okOracle)
+              | _ => pure (some okOracle)
+          | none => pure (some (failOracle "Unpack crashed"))
+    pure (model, oracle, none)
+  | r => pure (Json.mkObj [("create", errKindJson r)], none, none)
+
 def runFull (std : Stdlib) (c : Json) : R (Json × Option Json × Option String) := do
   let k ← strField c "k"
   match k with
@@ -728,6 +812,7 @@ def runFull (std : Stdlib) (c : Json) : R (Json × Option Json × Option String)
   | "norm" => runNorm c
   | "flags" => runFlags std c
   | "eval" => runEval std c
+  | "unpack" => runUnpack std c
   | _ => do pure ((← runCase std c), none, none)
 
 partial def loop (std : Stdlib) (h : IO.FS.Stream) (out : IO.FS.Stream) : IO Unit := do
